@@ -134,7 +134,7 @@ def replay(pyhf, backend, precision, chunk, ainv, seed):
                 for key_, (d_, n_, u_) in ent.items():
                     trip = (d_, n_, u_)
                     if trip not in single:
-                        single[trip] = tl.tolist(get(CODEKEY[code])([[[[d_], [n_], [u_]]]], **kw)(tl.astensor([al, [-a for a in al]])))
+                        single[trip] = tl.tolist(get(CODEKEY[code])([[[[d_], [n_], [u_]]]], **kw)(tl.astensor([al])))      # one systematic: one alpha row
             except Exception as e:  # noqa: BLE001
                 add(f"interpolator over several histograms and bins failed: {type(e).__name__}: {e}", {"case": case, "hset": wide}, tags + ["evalfail", "wide"])
             else:
